@@ -407,6 +407,8 @@ class Interp:
     def crate_fn(self, callee):
         """resolves a call to a function of the crate; returns Fn or None"""
         raw = callee
+        m = re.match(r"^@([^:]+):(\w+)$", callee)          # harness prelude syntax: crate function named by source file
+        if m: return self.ix.method(m.group(2), m.group(1))
         m = re.match(r"^<(.*) as (.*)>::(\w+)(?:::<.*>)?$", callee, re.S)
         if m:
             tn = self.resolve_type_name(m.group(1))
@@ -447,7 +449,16 @@ class Interp:
             if tn in ("CachePadded", "ManuallyDrop", "Pin", "Box", "Arc"):
                 used("%s::deref" % tn); return ("val", a(0))
         if re.search(r"UnsafeCell(::<.*>)?::(get|raw_get|get_mut)$", callee, re.S): used("UnsafeCell::get"); return ("val", a(0))
-        if re.search(r"NonNull(::<.*>)?::(as_ref|as_mut|as_ptr)", callee, re.S): used("NonNull::as_ref/as_mut"); return ("val", a(0))
+        if re.search(r"NonNull(::<.*>)?::(as_ref|as_mut)", callee, re.S):
+            # `&NonNull<T>` -> `&T`: reads the pointer value through the reference
+            v = a(0); used("NonNull::as_ref/as_mut")
+            if isinstance(v, LRef): return ("val", self.project(st.frames[v.depth].loc[v.name], v.proj))
+            if isinstance(v, Ptr):
+                d = self.mem.get(v.key())
+                if d is not None and d["kind"] == "frozen": return ("val", d["value"])
+                raise EncodingError("NonNull::as_ref through a shared location that is not a frozen pointer: %r" % v)
+            return ("val", v)
+        if re.search(r"NonNull(::<.*>)?::as_ptr", callee, re.S): used("NonNull::as_ptr"); return ("val", a(0))
         if re.search(r"(^|::)ManuallyDrop(::<.*>)?::(new|into_inner)$", callee, re.S): used("ManuallyDrop::new"); return ("val", a(0))
         if re.search(r"Box(::<.*>)?::from_raw$", callee, re.S): used("Box::from_raw"); return ("val", Agg("Box", [a(0)]))
         if re.search(r"Box(::<.*>)?::leak", callee, re.S): used("Box::leak"); v = a(0); return ("val", v.fields[0] if isinstance(v, Agg) and v.kind == "Box" else v)
